@@ -58,6 +58,36 @@ class ConnDesign(Elaboratable):
                         x(m)
                 self.obs += [(f"run{k}", t.run), (f"res{k}", res)]
             self.obs += [("read.run", conn.read.run), ("write.run", conn.write.run)]
+        elif cfg["kind"] == "chain":
+            # n Connects in a row: stage 0 writes c0, stage i reads c(i-1) and writes ci, stage n reads c(n-1); the stages
+            # in `zmask` also call a common method Z (nonexclusive unless znx is false)
+            n = cfg["n"]
+            conns = [Connect([("d", 1)]) for _ in range(n)]
+            for i, c in enumerate(conns):
+                m.submodules[f"c{i}"] = c
+            z = Method(name="Z")
+            zr = self.sig("zr")
+
+            @def_method(m, z, ready=zr, nonexclusive=cfg.get("znx", True))
+            def _():
+                pass
+            arg = self.sig("arg0")
+            res = Signal(name="res")
+            for k in range(n + 1):
+                rdy = self.sig(f"rdy{k}")
+                t = Transaction(name=f"S{k}")
+                with t.body(m, ready=rdy):
+                    d = arg if k == 0 else conns[k - 1].read(m).d
+                    if k < n:
+                        conns[k].write(m, d=d)
+                    else:
+                        m.d.top_comb += res.eq(d)
+                    if (cfg.get("zmask", 0) >> k) & 1:
+                        z(m)
+                self.obs.append((f"run{k}", t.run))
+            for i, c in enumerate(conns):
+                self.obs += [(f"c{i}.read.run", c.read.run), (f"c{i}.write.run", c.write.run)]
+            self.obs.append(("res", res))
         else:
             ms = []
             for k in range(2):
@@ -133,6 +163,28 @@ class ConnH(CondH):
             if cfg.get("third") and O["run2"] and O["run0"]:
                 V.append("simultaneous.conflict: S2 shares X0 with S0 but both run")
             return V, ()
+        if cfg["kind"] == "chain":
+            n = cfg["n"]
+            for i in range(n):
+                if O[f"c{i}.read.run"] != O[f"c{i}.write.run"]:
+                    V.append(f"connect.together: connect {i} of the chain: read.run={O[f'c{i}.read.run']} "
+                             f"write.run={O[f'c{i}.write.run']}")
+                if O[f"c{i}.write.run"] != O[f"run{i}"] or O[f"c{i}.read.run"] != O[f"run{i + 1}"]:
+                    V.append(f"connect.run: connect {i}: write.run={O[f'c{i}.write.run']} stage{i}.run={O[f'run{i}']} "
+                             f"read.run={O[f'c{i}.read.run']} stage{i + 1}.run={O[f'run{i + 1}']}")
+            allr = all(I[f"rdy{k}"] for k in range(n + 1)) and (I["zr"] or not cfg.get("zmask", 0))
+            for k in range(n + 1):
+                if O[f"run{k}"] and not allr:
+                    V.append(f"caller.enabled: stage {k} runs although not every stage of the chain (and Z) is ready")
+            if not V and O["run0"] and O["res"] != I["arg0"]:
+                V.append(f"connect.data: last stage got {O['res']}, first stage passed {I['arg0']}")
+            if O["run0"]:
+                self.count("nt_pair_runs")
+            elif any(I[f"rdy{k}"] for k in range(n + 1)):
+                self.count("nt_one_side_blocked")
+            if sum(I[f"rdy{k}"] for k in range(n + 1)) >= n:
+                self.count("nt_arbitration")
+            return V, ()
         nw, nr, rev = cfg["nw"], cfg["nr"], cfg.get("rev", True)
         if O["read.run"] != O["write.run"]:
             V.append(f"connect.together: read.run={O['read.run']} write.run={O['write.run']}")
@@ -175,6 +227,19 @@ def jobs(tier):
                 for rev in (True, False):
                     js.append(E1("checks.c13", "ConnH", {"kind": "connect", "nw": nw, "nr": nr, "extra": extra, "rev": rev},
                                  replay_cap=2))
+    # chains of Connects (transitive simultaneity groups of 2-4 (5) transactions), stages optionally sharing a method
+    for n in range(1, 4 if tier == "quick" else 5):
+        for zmask in range(1 << (n + 1)):
+            shared = bin(zmask).count("1")
+            for znx in (True, False):
+                if not znx and shared > 1:
+                    continue        # an exclusive method called by two stages that must run together: ill-formed
+                if znx and shared == 0:
+                    continue
+                if zmask & (zmask >> 1):
+                    continue        # two directly simultaneous stages sharing Z: the library rejects the design
+                                    # ("unsatisfiable simultaneity"); a rejected design cannot violate C13
+                js.append(E1("checks.c13", "ConnH", {"kind": "chain", "n": n, "zmask": zmask, "znx": znx}, replay_cap=2))
     js.append(E1("checks.c13", "ConnH", {"kind": "sim"}, replay_cap=2))
     js.append(E1("checks.c13", "ConnH", {"kind": "sim", "third": True}, replay_cap=2))
     return js
